@@ -8,7 +8,7 @@
 From stdpp Require Import gmap numbers list.
 From Coq Require Import ZArith.
 Require Import Model.Bytes Model.Bank Model.Valset Model.L1 Model.L2 Model.C12Spec.
-Require Import Proofs.L2Lemmas Proofs.C12L1Proofs Proofs.C12L2Proofs.
+Require Import Proofs.L2Lemmas Proofs.C12L1Proofs Proofs.C12L2Proofs Proofs.C12Examples.
 
 (* ---------------------------------- L1 (ophost) ------------------------------------- *)
 
@@ -23,6 +23,16 @@ Proof. exact c12_l1_complete. Qed.
 Theorem C12_l1_refused : ∀ (c : L1.cfg) (e : L1.env) (s : l1state) (m : L1.msg),
   ¬ allowed_l1 c s m (l1_signer m) → L1.step c e s m = (s, L1.Err).
 Proof. exact c12_l1_refused. Qed.
+
+(* The role is ALL that matters about the signer: for a permissioned message, two valid
+   address strings that the table both allows get the same verdict, the same successor state
+   and the same response.  Together with C12_l1_complete: a signer is never refused "for lack
+   of the role" once it holds one, and never accepted because of anything else it is. *)
+Theorem C12_l1_role_suffices : ∀ (c : L1.cfg) (e : L1.env) (s : l1state) (m : L1.msg) a a',
+  l1_permissioned m = true → valid_addr c a = true → valid_addr c a' = true →
+  allowed_l1 c s m a → allowed_l1 c s m a' →
+  L1.handle c e s (l1_with_signer m a) = L1.handle c e s (l1_with_signer m a').
+Proof. exact c12_l1_role_suffices. Qed.
 
 (* Immediate effect of a proposer rotation on the table: in the state right after an Ok
    MsgUpdateProposer the proposer of that bridge is exactly the new address; that bridge's
@@ -181,6 +191,7 @@ Proof. exact c12_repoint_refused. Qed.
 
 Print Assumptions C12_l1_complete.
 Print Assumptions C12_l1_refused.
+Print Assumptions C12_l1_role_suffices.
 Print Assumptions C12_immediate_proposer_rotation.
 Print Assumptions C12_immediate_challenger_rotation.
 Print Assumptions C12_immediate_old_proposer.
